@@ -705,7 +705,18 @@ class Sim:
                 return (lambda: ctx.constant(value)), (lambda r: self.check_constant(r, value, "request"))
             if like[0] == "t":
                 ty = decode_type(like[1])
-                return (lambda: ctx.constant(value, ty)), (lambda r: self.check_constant(r, value, "request"))
+
+                def check_typed(r):
+                    self.check_constant(r, value, "request")
+                    # "... and its reference type": a like given as a type must be attached as that very type
+                    if r.kind == "constant" and len(r.operands) == 2:
+                        got = r.operands[1]
+                        exp = expected_type(ty)
+                        if getattr(got, "kind", None) != "symbol" or type_shape(got.operands[1]) != exp:
+                            self.violation("alias", "request|reference-type", requested=list(exp) if exp[0] != "list" else str(exp),
+                                           returned=repr(r))
+
+                return (lambda: ctx.constant(value, ty)), check_typed
             lk = self.ref(like)
             return (lambda: ctx.constant(value, lk)), (lambda r: self.check_constant(r, value, "request"))
         if t == "op":
